@@ -266,3 +266,89 @@ def stored_value_in_files(H, case):
     q = q.modules[1] if ctx == "project" else q.module
     H.check("loading_restores_value", H.eq(q.controller_values[name], v))
     H.cover("reached")
+
+
+def _dependent_cases(tier):
+    out = []
+    for cid, (cname, name) in K.controller_cases(tier):
+        if isinstance(K.class_by_name(cname).controllers[name].value_type, DependentRange):
+            out.append((cid, (cname, name)))
+    return out
+
+
+@contract("unit_assigned_after_construction", ["C10"], cases=_dependent_cases,
+          targets=["rv.modules.module:Module.__init__", "rv.controller:DependentRange.parent", "rv.controller:Controller.instance_value_type",
+                   "rv.controller:Controller.pattern_value", "rv.modules.module:Module.get_raw"])
+def unit_assigned_after_construction(H, case):
+    """A unit-dependent controller on a module built with the plain constructor whose unit is assigned
+    AFTERWARDS through the attribute (every unit): the controller's range is the table row of that unit,
+    its minimum maps to 0x0000 and its maximum to 0x8000 in the pattern encoding, and the stored value is
+    the value itself."""
+    cname, name = case
+    cls = K.class_by_name(cname)
+    ctl = cls.controllers[name]
+    t = ctl.value_type
+    m = H.call(cls)
+    unit_t = cls.controllers[t.ctl_name].value_type
+    unit = H.enum("unit", unit_t)
+    H.setattr(m, t.ctl_name, unit)
+    want = t.range_map[unit]
+    got = H.call(ctl.instance_value_type, m)
+    H.check("range_is_the_row_of_the_assigned_unit", (got.min, got.max) == (want.min, want.max))
+    H.check("pattern_value_of_min_is_0x0000", H.call(ctl.pattern_value, m, want.min) == 0)
+    H.check("pattern_value_of_max_is_0x8000", H.call(ctl.pattern_value, m, want.max) == 0x8000)
+    v = H.int("v", want.min, want.max)
+    H.setattr(m, name, v)
+    H.check("stored_value_is_value", H.call(m.get_raw, name) == v)
+    H.cover("reached")
+
+
+@contract("user_defined_value_through_file", ["C10", "C15"], cases=lambda tier: [("synth", "synth"), ("project", "project")],
+          targets=["rv.modules.metamodule:MetaModule.MappingArray.update_user_defined_controllers", "rv.readers.module:ModuleReader.process_SEND",
+                   "rv.modules.module:Module.set_raw", "rv.modules.module:Module.get_raw"])
+def user_defined_value_through_file(H, ctx):
+    """v -> stored file value -> v for the MetaModule's user-defined controllers mapped onto a
+    negative-minimum range, a bool, an enum and a plain range: the file holds the documented stored value
+    (independent decoder) and the LOADED module has the mapped controller's range and gives v back."""
+    from rv.modules.metamodule import MetaModule
+    from rv.project import Project
+    from rv.synth import Synth
+    from spec import format as F
+
+    from . import rw
+    from .c15 import build_metamodule
+
+    m = build_metamodule(H, 4)
+    if ctx == "synth":
+        data = rw.write_container(H, Synth(m))
+        q = rw.read_back(H, data).module
+        sect = F.parse_stream(data)
+    else:
+        p = Project()
+        p.attach_module(m)
+        data = rw.write_container(H, p)
+        q = rw.read_back(H, data).modules[1]
+        chunks = F.parse_stream(data)
+        idx = [i for i, c in enumerate(chunks) if bytes(c[0]) == b"SFFF"][1]
+        sect = chunks[idx:]
+    cvals = [c[1] for c in sect if bytes(c[0]) == b"CVAL"]
+    H.check("is_metamodule", type(q) is MetaModule and len(cvals) >= 9)
+    if type(q) is not MetaModule or len(cvals) < 9:
+        return
+    for i in range(4):
+        name = f"user_defined_{i + 1}"
+        t = m.user_defined[i].value_type
+        v = m.controller_values[name]
+        if isinstance(t, Range):
+            want = v - t.min if t.min < 0 else v
+        elif t is bool:
+            want = H.ite(v, 1, 0)
+        else:
+            want = v.value
+        H.check(f"{name}.file_holds_documented_stored_value", F.dec_i32(cvals[5 + i]) == want)
+        H.check(f"{name}.loaded_value", H.eq(q.controller_values[name], v))
+        t2 = q.user_defined[i].value_type
+        if isinstance(t, Range):
+            H.check(f"{name}.loaded_range_is_the_mapped_controllers", isinstance(t2, Range) and (t2.min, t2.max) == (t.min, t.max))
+            H.check(f"{name}.loaded_get_raw", H.call(q.get_raw, name) == want)
+    H.cover("reached")
